@@ -69,11 +69,29 @@ pub fn time_of(t: i64) -> Time {
     let base = match EPOCH.load(std::sync::atomic::Ordering::SeqCst) {
         1 => Time::utc(1950, 3, 1, 12, 0, 0),
         2 => Time::utc(2049, 12, 31, 23, 0, 0),
+        // 3 = around the wall clock: instant 1 lies a few seconds before the start of this process, so that for the next hour
+        // "now" is strictly between instants 1 and 2 (for the entry points that read the clock themselves)
+        3 => return wall_base() + chrono::TimeDelta::try_hours(t - 1).unwrap(),
         _ => Time::utc(2024, 3, 1, 12, 0, 0),
     };
     base + chrono::TimeDelta::try_hours(t).unwrap()
 }
 pub static EPOCH: std::sync::atomic::AtomicUsize = std::sync::atomic::AtomicUsize::new(0);
+static WALL: std::sync::OnceLock<(Time, std::time::Instant)> = std::sync::OnceLock::new();
+/// whole-second instant three seconds before the first call
+pub fn wall_base() -> Time {
+    WALL.get_or_init(|| {
+        let n = Time::now();
+        let whole = Time::utc(chrono::Datelike::year(&*n), chrono::Datelike::month(&*n), chrono::Datelike::day(&*n),
+                              chrono::Timelike::hour(&*n), chrono::Timelike::minute(&*n), chrono::Timelike::second(&*n));
+        (whole - chrono::TimeDelta::try_seconds(3).unwrap(), std::time::Instant::now())
+    }).0
+}
+/// the wall-clock epoch may be used while the real clock is safely inside (instant 1, instant 2)
+pub fn wall_usable() -> bool {
+    let _ = wall_base();
+    WALL.get().unwrap().1.elapsed() < std::time::Duration::from_secs(45 * 60)
+}
 
 pub fn rsync(s: &str) -> uri::Rsync {
     uri::Rsync::from_str(s).unwrap()
